@@ -523,6 +523,51 @@ class GenA:
             return None
         return self.ev_new_container()
 
+    def gen_drain_fresh(self):
+        """A freshly made vessel whose contents are all stated in one unit class with round numbers, emptied completely by a
+        request for exactly their sum in that unit (0.7 mmol + 0.1 mmol -> '0.8 mmol').  The model demands acceptance of such a
+        whole-content request only for fresh vessels and representable totals; this op produces exactly that regime, so that
+        it is met often enough to be judged (under every storage configuration in C18)."""
+        rng = self.rng
+        if self.n_cont >= 14:
+            return None
+        names = self.subs_of()
+        cls = rng.choice(['mol', 'mol', 'g', 'L'])
+        cand = [n for n in names if not self.W.msubs[n].is_enzyme]
+        if len(cand) < 2:
+            return None
+        chosen = rng.sample(cand, rng.choice([2, 2, 3]) if len(cand) >= 3 else 2)
+        scale = self.volume_scale()
+        name = f"V{self.n_cont}"
+        self.n_cont += 1
+        contents, total = [], F(0)
+        # one prefix for every portion, few digits: the sum is a short decimal in that prefix
+        first = self.W.msubs[chosen[0]]
+        ref = float(first.amount_from(F(repr(scale * rng.uniform(0.05, 0.5))), 'L') * first.per_amount(cls))
+        table = {'L': VOL_PREFIXES, 'g': MASS_PREFIXES, 'mol': MOL_PREFIXES}[cls]
+        good = [p for p in table if 0.05 <= ref / float(M.PREFIXES[p]) < 500]
+        if not good:
+            return None
+        p = rng.choice(good)
+        for n in chosen:
+            v = F(rng.choice([1, 2, 3, 5, 7, 9, 11, 13])) * F(1, 10) ** rng.choice([0, 1, 1])
+            v = v * F(rng.choice([1, 1, 10]))
+            contents.append([n, f"{dec(v, 8)} {p}{cls}"])
+            total += v
+        dst = None
+        for n in self.names('container'):
+            m, _ = self.latest_model(n, -1)
+            if m.cap is None and n != name:
+                dst = n
+                break
+        if dst is None:
+            dst = f"V{self.n_cont}"
+            self.n_cont += 1
+            self.pending.append({'op': 'new_container', 'name': dst, 'cap': None, 'contents': [], 'obs': rng.randrange(1 << 30)})
+        self.pending.append({'op': 'transfer', 'src': [name, -1], 'dst': [dst, -1], 'q': f"{dec(total, 12)} {p}{cls}", 'obs': rng.randrange(1 << 30)})
+        self.b.stats['probe:fresh_vessel_drained_exactly'] += 1
+        return {'op': 'new_container', 'name': name, 'cap': None, 'contents': contents, 'obs': rng.randrange(1 << 30)}
+
     def gen_new_plate(self):
         if self.n_plate >= 3:
             return None
